@@ -1137,6 +1137,63 @@ def dimension_cases(c, S, info, R, rb):
                 viol.append(("heartbeat-save:nofile", "heartbeat did not write the snapshot", {"cfg": cfg}))
         return {"n": n, "viol": viol}
 
+    def big_archive(_):
+        """archives with more than 1024 snapshots (the index grows in blocks of 1024): automatic cadence step=1 inside
+        integrate(), and 1100 manual appends; restore the latest snapshot, one beyond index 1024 and one below through
+        every reader; each must be the state after exactly that many steps and continue like the uninterrupted run"""
+        viol, n = [], 0
+        NS = 1100
+        for integ, o, mode in (("whfast", {"safe_mode": 0}, "auto"), ("leapfrog", {}, "manual")):
+            cfg = {"integrator": integ, "o": o, "system": "planets", "save_after": 0}
+            fn = os.path.join(S.tmp, "big_%s.bin" % mode)
+            if os.path.exists(fn):
+                os.remove(fn)
+            a = build_sim(rb, cfg)
+            if mode == "auto":
+                a.save_to_file(fn, step=1, delete_file=True)
+                a.integrate(a.t + (NS + 0.2) * a.dt, exact_finish_time=0)
+            else:
+                a.save_to_file(fn)
+                for i in range(NS):
+                    a.steps(1)
+                    a.save_to_file(fn)
+            last = int(a.steps_done) if mode == "manual" else None
+            with warnings.catch_warnings():
+                warnings.simplefilter("ignore")
+                sa = rb.Simulationarchive(fn)
+                nb = len(sa)
+                n += 1
+                if nb < NS + 1 or (last is not None and nb != last + 1):
+                    viol.append(("archive-index-truncated:" + mode, "an archive written with %d snapshots (%s) is read with %d" % (NS + 1, mode, nb), {"cfg": cfg, "mode": mode}))
+                want_last = (last if last is not None else nb - 1)
+                readers = [("sa[-1]", lambda: sa[-1], None), ("Simulation(fn)", lambda: rb.Simulation(fn), None),
+                           ("Simulation(bytes)", lambda: rb.Simulation(open(fn, "rb").read()), None),
+                           ("sa[1030]", lambda: sa[1030], 1030), ("Simulation(fn,1050)", lambda: rb.Simulation(fn, snapshot=1050), 1050),
+                           ("sa[1023]", lambda: sa[1023], 1023), ("sa[1024]", lambda: sa[1024], 1024), ("sa[517]", lambda: sa[517], 517),
+                           ("getSimulation(t1040)", lambda: sa.getSimulation(a.dt * 1040.3, mode="snapshot", keep_unsynchronized=1), 1040)]
+                for name, rd, idx in readers:
+                    n += 1
+                    try:
+                        r = rd()
+                    except Exception as e:
+                        viol.append(("archive-big-restore:" + name.split("(")[0], "restoring %s from an archive with %d snapshots raises %s" % (name, NS + 1, str(e)[:120]), {"cfg": cfg, "mode": mode, "reader": name}))
+                        continue
+                    steps = int(r.steps_done)
+                    exp = idx if idx is not None else (last if last is not None else int(a.steps_done) - (0 if mode == "manual" else 0))
+                    if idx is not None and steps != idx or idx is None and steps < NS:
+                        viol.append(("archive-big-wrong-snapshot:" + name.split("(")[0], "%s of an archive with %d snapshots (%s) returns the state after %d steps, expected %s" % (
+                            name, NS + 1, mode, steps, idx if idx is not None else ">= %d (the latest)" % NS), {"cfg": cfg, "mode": mode, "reader": name}))
+                        continue
+                    u = build_sim(rb, cfg); u.steps(steps)
+                    u.steps(4); r.steps(4); u.synchronize(); r.synchronize()
+                    pu = [(t, p) for t, p in R.persisted_view(u) if R.names.get(t) in PHYS]
+                    pr = [(t, p) for t, p in R.persisted_view(r) if R.names.get(t) in PHYS]
+                    d_ = R.first_difference(pu, pr)
+                    if d_:
+                        viol.append(("archive-big-continue:" + name.split("(")[0], "%s of a %d-snapshot archive, continued, differs from the uninterrupted run: %s" % (name, NS + 1, d_), {"cfg": cfg, "mode": mode, "reader": name}))
+            os.remove(fn)
+        return {"n": n, "viol": viol}
+
     def user_odes(_):
         viol, n = [], 0
         a = build_sim(rb, dict(base, integrator="bs", o={})); advance(a, 2)
@@ -1165,6 +1222,7 @@ def dimension_cases(c, S, info, R, rb):
     run("versions:file_written_by_older_version", old_file)
     run("histories:auto_archive_and_heartbeat_save", auto_archive)
     run("callbacks:user_odes_not_persisted", user_odes)
+    run("scale:archive_with_more_than_1024_snapshots", big_archive)
     return dims
 
 
